@@ -64,7 +64,7 @@ func optName(o conv.Options) string {
 
 func (check) Groups(tier string, seed int64) []string {
 	g := pj.ScopeGroups(tier)
-	g = append(g, "unknown/top", "unknown/nested")
+	g = append(g, "unknown/top", "unknown/nested", "after-failure")
 	return g
 }
 
@@ -85,8 +85,15 @@ func hexs(b []byte) string {
 // convCase wraps a scope case into a core.Case; all option sets are run inside the case. A violation seen under
 // a non-default option set carries the option in its signature only when the default run of the same message
 // did not show the same outcome (so an option-independent defect has one signature).
-func convCase(cc *pj.ConvCase, unknown bool) core.Case {
+func convCase(cc *pj.ConvCase, unknown bool) core.Case { return convCaseP(cc, unknown, false) }
+
+// convCaseP with primed: additionally, after every failing conversion of the menu derived from the input (every
+// proper prefix, every byte position set to 0xff) on the same converter, the input must convert exactly as alone.
+func convCaseP(cc *pj.ConvCase, unknown, primed bool) core.Case {
 	focus := cc.Focus
+	if primed {
+		focus = "after-failure"
+	}
 	var input []byte
 	build := func() (*pj.Compiled, []byte) {
 		c := pj.Compile(cc.Prog)
@@ -102,6 +109,9 @@ func convCase(cc *pj.ConvCase, unknown bool) core.Case {
 		},
 		Run: func() core.Result {
 			r := core.Result{Class: "ok", Key: cc.Prog.Name + "|" + cc.What}
+			if primed {
+				r.Key += "|after-failure"
+			}
 			c, in := build()
 			input = in
 			if c.Err != nil {
@@ -163,6 +173,30 @@ func convCase(cc *pj.ConvCase, unknown bool) core.Case {
 						}
 						if e2 == nil && !bytes.Equal(buf, out) {
 							add("p2j.DoInto", "output-differs-from-Do", "cap=%d: DoInto %s, Do %s", cp, buf, out)
+							break
+						}
+					}
+				}
+				if primed && pi == nil {
+					var primes [][]byte
+					for n := 0; n < len(orig); n++ {
+						primes = append(primes, append([]byte{}, orig[:n]...))
+						d := append([]byte{}, orig...)
+						d[n] = 0xff
+						primes = append(primes, d)
+					}
+					for _, pr := range primes {
+						var o2 []byte
+						var e2 error
+						core.Catch(func() { cv.Do(context.Background(), c.In, pr) })
+						pi2 := core.Catch(func() { o2, e2 = cv.Do(context.Background(), c.In, in) })
+						r.Count("conversions", 2)
+						if pi2 != nil {
+							add("p2j.Do", "panic-after-failing-conversion@"+pi2.Site, "after converting %x: panic %s\n%s", pr, pi2.Val, pi2.Stack)
+							break
+						}
+						if (e2 != nil) != (cerr != nil) || !bytes.Equal(o2, out) {
+							add("p2j.Do", "differs-after-failing-conversion", "after converting %x: %s (err %v); alone: %s (err %v)\ninput %x", pr, o2, e2, out, cerr, in)
 							break
 						}
 					}
@@ -242,6 +276,16 @@ func (check) Enumerate(tier string, seed int64, gi int, yield func(core.Case) bo
 	g := groups[gi]
 	if strings.HasPrefix(g, "unknown/") {
 		unknownCases(g, yield)
+		return
+	}
+	if g == "after-failure" {
+		// the presence family (64 subsets of a six-field message with nested message, list and map) and the
+		// recursion chains, each input primed with every truncation / damaged byte of itself
+		for _, sg := range []string{"presence", "recursion"} {
+			if !pj.ScopeEnumerate(tier, sg, func(cc *pj.ConvCase) bool { return yield(convCaseP(cc, false, true)) }) {
+				return
+			}
+		}
 		return
 	}
 	pj.ScopeEnumerate(tier, g, func(cc *pj.ConvCase) bool {
